@@ -1050,7 +1050,7 @@ structure PreQuestion (s : State) : Prop where
 /-- `Writer::new` with a limit of at most 65 535 octets -/
 theorem preQuestion_new (buf : Bytes) (limit : Nat) (hl : limit ≤ 65535) (s : State)
     (h : Writer.new buf limit = .ok s) : PreQuestion s := by
-  have hi := Writer.writerSafe.new_I buf limit s h
+  have hi := Writer.writerSafe.new_I buf limit s hl h
   have h' := h
   unfold Writer.new at h'
   by_cases hlt : min limit buf.size < Gen.HEADER_SIZE
